@@ -6,6 +6,7 @@ pub mod e2;
 pub mod enc;
 pub mod gbat;
 pub mod guard;
+pub mod iterp;
 pub mod machines;
 pub mod refmodel;
 pub mod report;
